@@ -16,7 +16,7 @@ ID = "C14"
 LEVEL = "exploration"
 RULE = (
     "Hypothesis draws towers 1..3 x steps 1..4 (1x1 included) with per-step met values (repeated conditions allowed), footprint or "
-    "dispersion, halo default / 0 / explicit, precision, a parallel strategy in {towers, time, both}, max_workers 1..5, parent "
+    "dispersion, optional user time labels whose sort order differs from the series order (newest first, unpadded hours, day-first dates, descending integers), halo default / 0 / explicit, precision, a parallel strategy in {towers, time, both}, max_workers 1..5, parent "
     "NUM_THREADS in {1, 4}, use_cache on/off, an optional user-supplied surface flux for the serial drivers, the configured ideal source (shape, off-centre location), and a delay table (tower, step) -> {0, 20, 60, 120} ms. Schedule control: "
     "bldfm.interface.run_bldfm_single is wrapped before the pool forks so that every worker sleeps its drawn delay first - the "
     "completion order is a function of the drawn table. Oracle: reference single runs computed serially with one thread and no "
@@ -53,7 +53,9 @@ def _case(draw):
         "halo": draw(st.sampled_from(["default", "zero", "explicit"])), "precision": draw(st.sampled_from(["double", "double", "single"])),
         "strategy": draw(st.sampled_from(["towers", "time", "both"])), "workers": draw(st.sampled_from([2, 3, 5, 1, 4])),
         "parent_threads": draw(st.sampled_from([1, 4])), "use_cache": draw(st.booleans()),
-        "timestamps": draw(st.booleans()),
+        # user labels; their sort order has nothing to do with the series order (newest first, unpadded hours,
+        # day-first dates across New Year, descending integers)
+        "timestamps": draw(st.sampled_from([False, "iso", "newest-first", "unpadded", "day-first", "int-desc"])),
         "user_flux": draw(st.sampled_from([False, False, True])),
         "src_loc": draw(st.sampled_from([None, [30.0, 110.0], [125.0, 40.0]])),  # ideal source off the domain centre
         "flux_shape": draw(st.sampled_from(["diamond", "circle", "point"])),
@@ -74,7 +76,13 @@ def _config(case):
     if nt == 1 and case["delays"][0][0] % 40 == 0:  # scalars now and then
         met = {k: v[0] for k, v in met.items()}
     if case["timestamps"] and isinstance(met["ustar"], list):
-        met["timestamps"] = [f"2024-06-01T{h:02d}:00" for h in range(nt)]
+        style = case["timestamps"]
+        met["timestamps"] = {
+            "newest-first": [f"2024-06-01T{23 - h:02d}:00" for h in range(nt)],
+            "unpadded": ["9:30", "10:00", "10:30", "8:00"][:nt],
+            "day-first": ["31.12.2023", "01.01.2024", "02.01.2024", "30.12.2023"][:nt],
+            "int-desc": [40, 30, 20, 10][:nt],
+        }.get(style, [f"2024-06-01T{h:02d}:00" for h in range(nt)])  # True (older replay files) / "iso"
     dom = {"nx": 8, "ny": 6, "xmax": 160.0, "ymax": 150.0, "nz": 4, "modes": [8, 6], "ref_lat": 48.0, "ref_lon": 11.0}
     if case["halo"] == "zero":
         dom["halo"] = 0.0
